@@ -30,6 +30,7 @@ type scripted struct {
 	name string
 	dup  bool
 	mute bool
+	sent map[int64]bool // offsets it has acknowledged
 }
 
 func (f *scripted) Replicate(stream proto.OxiaLogReplication_ReplicateServer) error {
@@ -41,6 +42,10 @@ func (f *scripted) Replicate(stream proto.OxiaLogReplication_ReplicateServer) er
 		if f.mute {
 			continue
 		}
+		if f.sent == nil {
+			f.sent = map[int64]bool{}
+		}
+		f.sent[a.Entry.Offset] = true
 		if err := stream.Send(&proto.Ack{Offset: a.Entry.Offset}); err != nil {
 			return err
 		}
@@ -95,9 +100,12 @@ func body(v variant) func(s *vsched.Sched) {
 			return
 		}
 		fm := map[string]*proto.EntryId{}
+		var fols []*scripted
 		for i := 0; i < int(v.rf)-1; i++ {
 			name := fmt.Sprintf("f%d", i+1)
-			net.Peers[name] = &scripted{name: name, dup: v.dup, mute: i < v.mute}
+			sf := &scripted{name: name, dup: v.dup, mute: i < v.mute}
+			fols = append(fols, sf)
+			net.Peers[name] = sf
 			fm[name] = &proto.EntryId{Term: -1, Offset: -1}
 		}
 		if _, err := lc.NewTerm(&proto.NewTermRequest{Namespace: "ns", Shard: 1, Term: 1, Options: &proto.NewTermOptions{EnableNotifications: true}}); err != nil {
@@ -149,6 +157,19 @@ func body(v variant) func(s *vsched.Sched) {
 					resp, err := lc.WriteBlock(ctx, &proto.WriteRequest{Shard: oxh.I64(1),
 						Puts: []*proto.PutRequest{{Key: key, Value: []byte(fmt.Sprintf("v%d", i))}}})
 					results[i] = wres{done: true, err: err, resp: resp}
+					if err == nil && len(resp.Puts) == 1 && resp.Puts[0].Status == proto.Status_OK {
+						// the version id of a put is the offset of its entry; a follower that has not even sent
+						// its acknowledgement cannot have been counted
+						off, holders := resp.Puts[0].Version.VersionId, 0
+						for _, f := range fols {
+							if f.sent[off] {
+								holders++
+							}
+						}
+						if need := int(v.rf) / 2; holders < need {
+							fail(s, "write-acknowledged-without-quorum", fmt.Sprintf("the put of %s (offset %d) was answered OK when %d of %d followers had acknowledged the entry; replication factor %d needs %d besides the leader", key, off, holders, int(v.rf)-1, v.rf, need))
+						}
+					}
 				}
 			})
 		}
@@ -441,7 +462,7 @@ func scenarios(tier string) []sched.Scenario {
 			dev int
 		}
 		for _, x := range vs {
-			if x.v.sameKey || x.v.cancel {
+			if x.v.sameKey || x.v.cancel || (x.v.rf >= 5 && onlySameKeyPlusRF5) {
 				f = append(f, x)
 			}
 		}
@@ -496,6 +517,7 @@ func Main(property string, stage2 bool, keep map[string]bool, rule string) int {
 	keepKeys = keep
 	withFollower = property == "C07"
 	onlySameKey = property == "C02"
+	onlySameKeyPlusRF5 = property == "C02"
 	if rule == "" {
 		rule = "every schedule of the harness threads (writers, WAL sync thread, follower cursors, ack receivers, scripted followers) with at most max_dev non-default scheduling choices, each run once on the real leader controller; an execution is non-trivial when it deviates from the default schedule at least once"
 	}
@@ -527,6 +549,10 @@ var withFollower bool
 // stages of C02 and C06: what the leader serves must be the fold of its committed log, also for a write whose
 // client stopped waiting)
 var onlySameKey bool
+
+// onlySameKeyPlusRF5: C02 also runs the replication-factor-5 variants (a write is answered only once a quorum of
+// followers has acknowledged its entry; with RF 3 one follower is the quorum)
+var onlySameKeyPlusRF5 bool
 
 // fail reports a failure unless the property being decided does not include that key.
 func fail(s *vsched.Sched, key, msg string) {
